@@ -61,7 +61,7 @@ var c17dynamic = []string{"README.adoc", "zebra"}
 func VerifC17_Completion() {
 	vNativeReset()
 	zsh := vBool("zsh")
-	shape := vInt("earlier", 0, 7)
+	shape := vInt("earlier", 0, 8)
 	w := vString("w")
 	vAssume(vMatches(w, `[^\t\n\f\r ]*`))
 	vAssume(!strings.Contains(w, "="))
@@ -84,6 +84,11 @@ func VerifC17_Completion() {
 	case 5:
 		earlier, prior = "cmd sub ", []string{"cmd", "sub"}
 		opts, cmds = c17optsCmd, c17cmdsSub
+	case 8:
+		// the help command below the root offers the topics of that level only
+		earlier, prior = "cmd help ", []string{"cmd", "help"}
+		opts, cmds = nil, []string{"sub"}
+		vAssume(!strings.HasPrefix(w, "-"))
 	case 6:
 		// a wrapper (UnsetOptions) offers its own options only
 		earlier, prior = "wrap ", []string{"wrap"}
